@@ -166,15 +166,56 @@ def run_engine_cached(engine_name, fn, ctx):
     return r
 
 
+def _raised_in_code_under_test(tb_text):
+    """'file:function' of the innermost frame if it lies in the package under test (also through a worker pool's
+    RemoteTraceback, whose text is part of the formatted chain), else None.  Only the FIRST exception of the chain counts:
+    that is the one that started the unwinding."""
+    import re
+
+    first = re.split(r"\n(?:The above exception was the direct cause|During handling of the above exception)", tb_text)[0]
+    frames = re.findall(r'File "([^"]+)", line (\d+), in (\S+)', first)
+    if not frames:
+        return None
+    pkg = os.path.join(os.path.realpath(REPO), "sigpy") + os.sep
+    own = os.path.realpath(ROOT) + os.sep
+    for f, ln, fnname in reversed(frames):  # innermost first; frames of third-party libraries (numpy, pywt, ...) are skipped
+        rf = os.path.realpath(f)
+        if rf.startswith(pkg):
+            return "%s:%s" % (os.path.relpath(rf, os.path.realpath(REPO)), fnname)
+        if rf.startswith(own):
+            return None
+    return None
+
+
+def raised_in_code_under_test():
+    """For use inside an `except` block of an engine: did the exception being handled start in the package under test?"""
+    import traceback
+
+    return _raised_in_code_under_test(traceback.format_exc())
+
+
 def _run_engine(engine_name, fn, ctx):
     t0 = time.time()
     try:
         r = fn(ctx)
-    except Exception as e:  # machinery failure, never a verdict
+    except Exception as e:
         import traceback
 
         r = EngineResult(engine_name)
-        r.machinery_error = "%s: %s\n%s" % (type(e).__name__, e, traceback.format_exc())
+        txt = traceback.format_exc()
+        where = _raised_in_code_under_test(txt)
+        if where:
+            # the code under test raised on an input that was generated from a state the specification accepts and that the
+            # unchanged tree handles: no result is a wrong result for every property this engine decides
+            from harness import registry
+
+            props = sorted(p for p, d in registry.PROPS.items() if any(en == engine_name for en, _, _ in d["engines"])) or [ctx.prop]
+            r.violations.append(Violation(props, engine_name, {"kind": "code_raises", "where": where, "exception": type(e).__name__},
+                                          "the code under test raised on an input the specification accepts: %s: %s (innermost frame %s)" % (type(e).__name__, str(e)[:300], where),
+                                          {"traceback": txt[-4000:]}))
+            r.notes.append("engine aborted: code under test raised at %s" % where)
+        else:  # machinery failure, never a verdict
+            r.machinery_error = "%s: %s\n%s" % (type(e).__name__, e, txt)
     r.wall_s = time.time() - t0
     return r
 
